@@ -21,7 +21,7 @@ import numpy as np
 import sympy as sp
 
 from ..core import norm, calls_in, kwarg, AnalysisError, string_dispatch
-from ..symx import SymEval, Path, SymObj, symarray, is_zero, equal, Opaque, module_aliases, arr
+from ..symx import SymEval, Path, SymObj, symarray, is_zero, is_arr, equal, Opaque, WouldRaise, module_aliases, arr
 
 DV = 'atomman/core/dvect.pyx'
 DM = 'atomman/core/dmag.pyx'
@@ -223,14 +223,34 @@ def pairing(ctx):
     ctx.ob('PAIRING', loc, 'unknown box_reference is refused', all(p.done == 'raise' for p in paths), node=fn, key='pair refuse')
     t = [s for s in fn.body if isinstance(s, ast.If) and 'natoms' in norm(s.test)]
     ctx.ob('PAIRING', loc, 'systems with different atom counts are refused', len(t) == 1 and any(isinstance(x, ast.Raise) for x in t[0].body), node=fn, key='natoms refuse')
+    # System.dvect / System.dmag: evaluated on a model system with a recording kernel
+    cls = ctx.fn(SYS, 'System')
+    POS = symarray('r', (5, 3), real=True)
     for meth in ('dvect', 'dmag'):
         m = ctx.fn(SYS, 'System.' + meth)
-        cs = [c for c in calls_in(m) if norm(c.func) == meth]
-        ok = len(cs) == 1 and [norm(a) for a in cs[0].args] == ['pos_0', 'pos_1', 'self.box', 'self.pbc']
-        ctx.ob('PAIRING', SYS + '::System.' + meth, 'the system method uses the system\'s own box and periodicity, reference point first', ok, node=m, key='system ' + meth)
-        idx = [s for s in ast.walk(m) if isinstance(s, ast.Assign) and norm(s.value) in ('self.atoms.pos[pos_0]', 'self.atoms.pos[pos_1]')]
-        ok = len(idx) == 2 and all(norm(s.targets[0]) == norm(s.value)[len('self.atoms.pos['):-1] for s in idx)
-        ctx.ob('PAIRING', SYS + '::System.' + meth, 'an index argument selects the system\'s own atom positions (pos_0 from pos_0, pos_1 from pos_1)', ok, node=m, key='index ' + meth)
+        for tag, a0, a1, want0, want1, nres in (('atom indices', 3, [1, 2], POS[3], POS[[1, 2]], 2), ('one index, one position', 0, arr([sp.Rational(1, 2), sp.Rational(1, 3), 2]), POS[0], arr([sp.Rational(1, 2), sp.Rational(1, 3), 2]), 1),
+                                              ('positions both', arr([[sp.Rational(1, 2), 0, 0], [0, sp.Rational(1, 4), 0]]), arr([[1, 1, sp.Rational(1, 5)]]), arr([[sp.Rational(1, 2), 0, 0], [0, sp.Rational(1, 4), 0]]), arr([[1, 1, sp.Rational(1, 5)]]), 2),
+                                              ('slice and negative index', slice(1, 3), -1, POS[1:3], POS[-1], 2)):
+            rec2 = []
+
+            def kern(p0, p1, box, pbc, _n=nres):
+                rec2.append((np.asarray(p0, dtype=object), np.asarray(p1, dtype=object), box, pbc))
+                return symarray('res', (_n, 3) if meth == 'dvect' else (_n,), real=True)
+            obj = SymObj(cls, {'atoms': SymObj(None, {'pos': POS.copy()}, 'atoms'), 'box': 'BOX', 'pbc': 'PBC'}, 'self')
+            ev2 = SymEval(module_aliases(ctx.mod(SYS)))
+            ev2.globals = {meth: kern}
+            try:
+                live = [q for q in ev2.run_fn(m, [obj, a0, a1], {}) if q.done == 'return']
+            except (Opaque, WouldRaise) as e:
+                raise AnalysisError('System.%s (%s): %s' % (meth, tag, e))
+            ok = len(live) == 1 and len(rec2) == 1 and rec2[0][2] == 'BOX' and rec2[0][3] == 'PBC' and np.shape(rec2[0][0]) == np.shape(want0) and np.shape(rec2[0][1]) == np.shape(want1) \
+                and equal(rec2[0][0], np.asarray(want0, dtype=object), deep=False) and equal(rec2[0][1], np.asarray(want1, dtype=object), deep=False)
+            if ok:
+                r_ = live[0].ret
+                full = symarray('res', (nres, 3) if meth == 'dvect' else (nres,), real=True)
+                ok = equal(np.asarray(r_, dtype=object), full[0] if nres == 1 else full, deep=False) if (is_arr(r_) or nres > 1 or meth == 'dvect') else is_zero(r_ - full[0])
+            ctx.ob('PAIRING', SYS + '::System.' + meth, '%s: index arguments select the system\'s own atom positions, anything else is taken as positions; the kernel gets (reference, target, the system\'s box, the system\'s periodicity); a single result is returned unwrapped' % tag,
+                   bool(ok), str([(np.shape(r[0]), np.shape(r[1]), r[2], r[3]) for r in rec2]), node=m, key='system %s %s' % (meth, tag))
 
 
 def run(ctx):
